@@ -15,6 +15,18 @@ CHECKS = {
  "C10": dict(tech="reference-model oracle (bounds on ids/roots/edges, laws, per-field precedence) on six classes of operand pairs",
    text="Every Intersect execution is compared with the bounds the statement gives (exact node set, lower/upper bounds for roots and edge triples) plus idempotence, commutativity, absorption, emptiness and per-field precedence by reflection. Sampled pairs in six classes (independent, disjoint, nested, identical, cyclic, ill-formed).",
    note="Trusts the bounds model and protobuf reflection.", ref="DESIGN.md §5 C10"),
+ "C11": dict(tech="snapshot monitor (order-sensitive proto.Equal before/after every read-only or value-returning call) + Go race detector on 16 goroutines sharing one document",
+   text="Every read-only / value-returning public operation (28 sbom operations, enum helpers, WriteStream in the 7 registered formats, storage.Store) is executed on schema-populated operands with a field-by-field snapshot comparison around the call; the same operations run concurrently on one shared document in a -race build whose GORACE logs are parsed (reports with protobom frames are violations). A reflection pass over the exported method sets makes the run inconclusive when it meets an unclassified method.",
+   note="Trusts proto.Clone/proto.Equal and the race detector (happens-before: it reports races on the accesses executed, so coverage is by overlapping operation pair, measured and written to the evidence). Panics are not judged here (C04/C07/C15).", ref="DESIGN.md §5 C11"),
+ "C12": dict(tech="mutation-at-every-reflected-path monitor on copies and Union/Intersect results, plus a history monitor re-verifying earlier result snapshots",
+   text="For Node, Edge, Person, ExternalReference and NodeList every mutation site enumerated by protobuf reflection (scalars, list elements and growth, map entries, nested messages to depth 3) is mutated on one side of {copy, source} / {result, operand} and the other side compared with its pre-mutation snapshot, in both directions; random call histories re-verify all earlier result snapshots after each later call.",
+   note="Trusts protobuf reflection to reach the same Go slices/maps the API exposes (it does: protoreflect lists/maps wrap the struct fields). Values hold no nil elements in repeated message fields.", ref="DESIGN.md §5 C12"),
+ "C13": dict(tech="metamorphic oracle over reflection-enumerated single-attribute mutants and permuted presentations; equivalence laws on random triples",
+   text="For nodes, edges and node lists: a fully populated base value, a permuted presentation and one mutant per reflected mutation site are compared pairwise: reflexivity, symmetry, transitivity, Equal<=>Checksum, permutation invariance and inequality of every single-attribute mutant (dates +7 s unequal, sub-second changes equal). Random triples with arbitrary text check the laws; crafted pairs confirm the separator-collision known finding.",
+   note="Verdict cases use separator-free text (the collision class is a known finding keyed by a computed signature). Multiset changes of list attributes and contact order are not judged.", ref="DESIGN.md §5 C13"),
+ "C14": dict(tech="reference-model oracle (per-attribute comparator by reflection) plus reconstruction monitor apply(a,diff)==b",
+   text="Ordered node pairs of six kinds (independent, single-attribute mutants at every reflected site, permuted copies, empty-vs-absent collections, duplicates, sub-second date changes) are diffed in both directions; nil-ness, DiffCount and reconstruction of the second node from the first and the diff are checked against a reference comparator over all schema attributes.",
+   note="Trusts the reference comparator and the documented meaning of Added/Removed; separator-free text.", ref="DESIGN.md §5 C14"),
  "C15": dict(tech="reference-model oracle (BFS with root boundaries) over all digraphs on 3 (thorough: 4) nodes and random multigraphs; CPU watchdog for termination",
    text="NodeGraph/NodeSiblings/NodeDescendants are executed on every digraph with self-loops on 3 nodes x every root subset x every start x depths 1..5 (thorough: also all 65536 digraphs on 4 nodes) and on random multigraphs up to 30 nodes; results are compared with an independent BFS model, checked for monotonicity and order-independence; a per-case CPU-time watchdog in the supervised child decides termination.",
    note="Trusts the BFS model and the watchdog budget (60 CPU-seconds per case, re-run alone with 10x before a hang is reported).", ref="DESIGN.md §5 C15"),
